@@ -88,10 +88,22 @@ fn qwire(q: usize) -> Vec<u8> {
 /// encoded in the Z/AD/CD header bits, which no transport touches and which
 /// play no role in matching; the mock reads it back from the written bytes,
 /// so the frame → caller mapping is exact even for identical questions.
+///
+/// Every caller composes its request with an ID of its own (`caller_id`):
+/// non-zero, distinct per caller, both octets different. A transport that
+/// picks the wire ID itself (datagram, stream) overwrites it; one that makes
+/// up a reply itself (the load balancer's SERVFAIL when every upstream is
+/// over its burst limit) has only this ID to answer under.
 fn request_bytes(i: usize, q: usize) -> Vec<u8> {
-    let mut v = vec![0, 0, 0x01, ((i & 7) as u8) << 4, 0, 1, 0, 0, 0, 0, 0, 0];
+    let id = caller_id(i).to_be_bytes();
+    let mut v = vec![id[0], id[1], 0x01, ((i & 7) as u8) << 4, 0, 1, 0, 0, 0, 0, 0, 0];
     v.extend_from_slice(&qwire(q));
     v
+}
+
+/// The ID caller `i` puts into the request it composes.
+fn caller_id(i: usize) -> u16 {
+    0x4B1D + 0x0111 * (i as u16 & 7)
 }
 
 fn build_request(i: usize, q: usize) -> Rq {
@@ -929,6 +941,10 @@ struct Core<'a> {
     /// delivered to this caller's socket: at the next quiescence the request
     /// must still be pending (it is neither completed nor failed by it)
     still_pending: Vec<(usize, String)>,
+    /// (caller, virtual time) of every reply the transport made up itself
+    /// (not a message any peer delivered) and handed to that caller; examined
+    /// by the harness of the transport (run_combo)
+    synth: Vec<(usize, Instant)>,
 }
 
 fn err_class(e: &Error) -> String {
@@ -973,6 +989,7 @@ impl<'a> Core<'a> {
             stray_msgs: Vec::new(),
             strays_sent: 0,
             still_pending: Vec::new(),
+            synth: Vec::new(),
         }
     }
     fn stray_mode(&self) -> bool {
@@ -1064,7 +1081,16 @@ impl<'a> Core<'a> {
                     self.violate(format!("C15|{}|ok-response|one-message-handed-to-several-callers", self.tname), format!("message delivered {n_del}x handed to {n_handed} callers: {}", hex(b)));
                 }
                 let mut ids = self.reqs[i].ids.clone();
-                if ids.is_empty() && b.len() >= 2 {
+                if synthesized {
+                    // A reply made up by the transport answers the request as
+                    // its caller composed it: that ID (or one the transport
+                    // put on the wire for this caller), never taken on trust.
+                    self.synth.push((i, Instant::now()));
+                    ids.push(caller_id(i));
+                    if b[..2] != caller_id(i).to_be_bytes() {
+                        self.count("lb.synthesized-servfail.under-a-wire-id-or-foreign-id");
+                    }
+                } else if ids.is_empty() && b.len() >= 2 {
                     // The subject assigned an ID but has not written the
                     // request yet (write pending): take the ID on trust now,
                     // verify it when the request reaches the wire.
@@ -1083,6 +1109,16 @@ impl<'a> Core<'a> {
                         Some((fam, label)) => self.violate(
                             format!("C15|{}|stray-reply-accepted|{fam}|{why}", self.tname),
                             format!("request {i} (question {}, wire ids {:?}) was handed the stray reply [{label}] {} as its answer: {why}", self.reqs[i].q, ids, hex(b)),
+                        ),
+                        None if synthesized => self.violate(
+                            format!("C15|{}|synthesized-reply|{}", self.tname, why),
+                            format!(
+                                "request {i} (question {}, composed with id {:#06x}, wire ids {:?}) was handed the reply {} that the transport made up itself (no peer sent it): {why}",
+                                self.reqs[i].q,
+                                caller_id(i),
+                                self.reqs[i].ids,
+                                hex(b)
+                            ),
                         ),
                         None => self.violate(
                             format!("C15|{}|ok-response|{}", self.tname, why),
@@ -3203,16 +3239,33 @@ struct ComboCfg {
     plan: Vec<usize>,
     ups: Vec<UpMode>,
     defer: bool,
-    /// load balancer only: max_burst of every upstream
-    max_burst: Option<u64>,
+    /// load balancer only: max_burst of each upstream (empty = None for all)
+    bursts: Vec<Option<u64>>,
+    /// load balancer only: burst_interval of every upstream in ms (0 = the default is left alone)
+    interval_ms: u64,
+    /// (request, n): by default n time steps pass before this request is submitted
+    pre_ticks: Vec<(usize, u32)>,
     /// by default the next request is submitted only when nothing is open
     sequential: bool,
     /// defer_refused and defer_servfail
     defer_rcode: bool,
+    /// requests in their EDNS form (see build_request_edns)
+    edns: bool,
 }
 impl ComboCfg {
     fn json(&self) -> Value {
-        json!({"plan": self.plan, "upstreams_default": self.ups.iter().map(|u| format!("{u:?}")).collect::<Vec<_>>(), "defer_transport_error": self.defer, "max_burst": self.max_burst, "sequential": self.sequential, "defer_refused_and_servfail": self.defer_rcode})
+        json!({"plan": self.plan, "upstreams_default": self.ups.iter().map(|u| format!("{u:?}")).collect::<Vec<_>>(), "defer_transport_error": self.defer, "max_burst": self.bursts, "burst_interval_ms": self.interval_ms, "time_steps_before_request": self.pre_ticks, "sequential": self.sequential, "defer_refused_and_servfail": self.defer_rcode, "edns": self.edns})
+    }
+    /// A case of the burst-limit family (some upstream has a max_burst).
+    fn is_burst(&self) -> bool {
+        self.bursts.iter().any(|b| b.is_some())
+    }
+    fn burst(&self, u: usize) -> Option<u64> {
+        self.bursts.get(u).copied().flatten()
+    }
+    /// The burst interval in force (the documented default is one second).
+    fn interval(&self) -> Duration {
+        Duration::from_millis(if self.interval_ms == 0 { 1000 } else { self.interval_ms })
     }
 }
 
@@ -3269,11 +3322,56 @@ fn drive_setup(core: &mut Core, tr: &mut Option<Slot<()>>, fut: impl Future<Outp
     std::process::exit(2);
 }
 
+/// A reply the load balancer made up itself (its SERVFAIL for "no
+/// upstream may take this request now") needs a cause, like an Err:
+/// every upstream has a burst limit, and every upstream was handed at
+/// least max_burst requests within the burst interval that ends at the
+/// reply ("once the burst length has been exceeded, the upstream
+/// receives no new requests until the burst interval has completed").
+/// Necessary condition only: how the interval is anchored is the
+/// transport's business.
+fn check_synth(core: &mut Core, cfg: &ComboCfg, sh: &Arc<Mutex<UpShared>>, synth_seen: &mut usize) {
+    let tname = core.tname;
+    let n_up = cfg.ups.len();
+    while *synth_seen < core.synth.len() {
+        let (i, at) = core.synth[*synth_seen];
+        *synth_seen += 1;
+        let gsh = sh.lock().unwrap();
+        let mine = gsh.calls.iter().filter(|c| c.caller == i).count();
+        let mut short: Option<(usize, Option<u64>, usize)> = None;
+        for u in 0..n_up {
+            let recent = gsh.calls.iter().filter(|c| c.upstream == u && c.at + cfg.interval() >= at).count();
+            match cfg.burst(u) {
+                Some(m) if recent as u64 >= m => {}
+                lim => {
+                    short = Some((u, lim, recent));
+                    break;
+                }
+            }
+        }
+        drop(gsh);
+        if let Some((u, lim, recent)) = short {
+            let cause = if lim.is_none() { "upstream-without-burst-limit" } else { "upstream-below-its-burst-limit" };
+            core.violate(
+                format!("C15|{tname}|synthesized-reply|without-cause|{cause}"),
+                format!("request {i} was answered by the transport itself (SERVFAIL, no upstream asked) although upstream {u} (max_burst {lim:?}, burst interval {:?}) had been handed only {recent} request(s) within the last burst interval", cfg.interval()),
+            );
+        } else {
+            core.count("lb.synthesized-servfail.every-upstream-at-its-burst-limit");
+        }
+        if mine > 0 {
+            core.count("lb.synthesized-servfail.after-an-upstream-call-for-the-same-request");
+        }
+        core.count(&format!("lb.synthesized-servfail.for-request-number.{}", i + 1));
+    }
+}
+
 async fn run_combo(g: &Global, cfg: &ComboCfg, ch: Arc<Mutex<Chooser>>) {
     use domain::net::client::{load_balancer, redundant};
     let tname = if cfg.lb { "load_balancer" } else { "redundant" };
     let mut core = Core::new(g, tname, cfg.json(), ch.clone(), &cfg.plan);
     core.excuse_all = true; // Err causes are checked below, per upstream call
+    core.edns = cfg.edns;
     let sh = Arc::new(Mutex::new(UpShared::default()));
     let conn: Box<dyn SendRequest<Rq>>;
     let mut tr: Option<Slot<()>>;
@@ -3287,10 +3385,14 @@ async fn run_combo(g: &Global, cfg: &ComboCfg, ch: Arc<Mutex<Chooser>>) {
         for idx in 0..cfg.ups.len() {
             let c2 = cn.clone();
             let up = MockUp { idx, sh: sh.clone() };
-            let mb = cfg.max_burst;
+            let mb = cfg.burst(idx);
+            let iv = cfg.interval_ms;
             drive_setup(&mut core, &mut tr, async move {
                 let mut cc = load_balancer::ConnConfig::new();
                 cc.set_max_burst(mb);
+                if iv != 0 {
+                    cc.set_burst_interval(Duration::from_millis(iv));
+                }
                 c2.add("up", &cc, Box::new(up)).await
             });
         }
@@ -3316,6 +3418,9 @@ async fn run_combo(g: &Global, cfg: &ComboCfg, ch: Arc<Mutex<Chooser>>) {
     // REFUSED / SERVFAIL answers given while such answers are deferred: (caller, message)
     let mut deferred_replies: Vec<(usize, Vec<u8>)> = Vec::new();
     let mut deferred_checked: Vec<bool> = vec![false; cfg.plan.len()];
+    // time steps already taken in front of each request (see ComboCfg::pre_ticks)
+    let mut pre_done: Vec<u32> = vec![0; cfg.plan.len()];
+    let mut synth_seen = 0usize;
 
     for _step in 0..64 {
         core.quiesce(&mut tr);
@@ -3349,7 +3454,7 @@ async fn run_combo(g: &Global, cfg: &ComboCfg, ch: Arc<Mutex<Chooser>>) {
             drop(gsh);
             if failed == 0 {
                 core.violate(format!("C15|{tname}|spurious-error|{e}"), format!("request {i} completed with Err({e}) although no upstream call made for it failed"));
-            } else if cfg.defer && !cfg.defer_rcode && cfg.max_burst.is_none() && (answered > 0 || tried.len() < n_up || failed < tried.len()) {
+            } else if cfg.defer && !cfg.defer_rcode && !cfg.is_burst() && (answered > 0 || tried.len() < n_up || failed < tried.len()) {
                 core.violate(
                     format!("C15|{tname}|deferred-error|returned-before-every-upstream-failed"),
                     format!("request {i} completed with Err({e}) with defer_transport_error set: {} of {n_up} upstreams tried, {failed} calls failed, {answered} answered", tried.len()),
@@ -3358,6 +3463,7 @@ async fn run_combo(g: &Global, cfg: &ComboCfg, ch: Arc<Mutex<Chooser>>) {
                 core.count("err.has-upstream-cause");
             }
         }
+        check_synth(&mut core, cfg, &sh, &mut synth_seen);
         // a deferred REFUSED / SERVFAIL may only be the result when every
         // upstream has been tried and none of the caller's calls is still open
         for i in 0..core.reqs.len() {
@@ -3396,7 +3502,14 @@ async fn run_combo(g: &Global, cfg: &ComboCfg, ch: Arc<Mutex<Chooser>>) {
         let mut menu: Vec<CAct> = Vec::new();
         // default
         let mut default_call: Option<usize> = None;
-        if next_unsub.is_some() && !(cfg.sequential && any_pending) {
+        // time passes by default in front of this request
+        let pre_wait = match next_unsub {
+            Some(i) if !any_pending => pre_done[i] < cfg.pre_ticks.iter().filter(|(k, _)| *k == i).map(|(_, n)| *n).sum::<u32>(),
+            _ => false,
+        };
+        if pre_wait {
+            menu.push(CAct::Tick);
+        } else if next_unsub.is_some() && !(cfg.sequential && any_pending) {
             menu.push(CAct::Submit);
         } else {
             let mut d = None;
@@ -3443,7 +3556,8 @@ async fn run_combo(g: &Global, cfg: &ComboCfg, ch: Arc<Mutex<Chooser>>) {
                 }
             }
         }
-        if any_pending && !default_is_tick {
+        // burst-limit cases: time may also pass between two requests
+        if (any_pending || (cfg.is_burst() && next_unsub.is_some())) && !default_is_tick {
             menu.push(CAct::Tick);
         }
         for i in 0..core.reqs.len() {
@@ -3521,6 +3635,9 @@ async fn run_combo(g: &Global, cfg: &ComboCfg, ch: Arc<Mutex<Chooser>>) {
                 if ticks > 24 {
                     break;
                 }
+                if let (Some(i), false) = (next_unsub, any_pending) {
+                    pre_done[i] += 1;
+                }
                 tokio::time::advance(UP_TICK).await;
             }
             CAct::Cancel(i) => core.cancel(i),
@@ -3533,6 +3650,19 @@ async fn run_combo(g: &Global, cfg: &ComboCfg, ch: Arc<Mutex<Chooser>>) {
         }
     }
     core.quiesce(&mut tr);
+    check_synth(&mut core, cfg, &sh, &mut synth_seen);
+    if cfg.is_burst() {
+        // coverage: how the requests of this execution were served
+        let synth: Vec<usize> = core.synth.iter().map(|(i, _)| *i).collect();
+        let up_ok = (0..core.reqs.len()).filter(|i| !synth.contains(i) && matches!(core.reqs[*i].result, Some(Res::Ok(_)))).count();
+        let k = format!("lb.burst.executions.{}-served-upstream.{}-answered-by-the-transport", up_ok, synth.len());
+        core.counters.insert(k, 1);
+        if let Some(first) = synth.first() {
+            if (first + 1..core.reqs.len()).any(|i| !synth.contains(&i) && matches!(core.reqs[i].result, Some(Res::Ok(_)))) {
+                core.counters.insert("lb.burst.executions.served-upstream-again-after-a-made-up-reply".into(), 1);
+            }
+        }
+    }
     {
         let gsh = sh.lock().unwrap();
         let mut per: BTreeMap<usize, std::collections::BTreeSet<usize>> = BTreeMap::new();
@@ -4681,30 +4811,99 @@ fn dgram_half_cfgs() -> Vec<DgramCfg> {
 
 fn combo_cfgs() -> Vec<ComboCfg> {
     let mut v = Vec::new();
+    let base = |lb: bool, plan: Vec<usize>, ups: Vec<UpMode>, defer: bool| ComboCfg { lb, plan, ups, defer, bursts: Vec::new(), interval_ms: 0, pre_ticks: Vec::new(), sequential: false, defer_rcode: false, edns: false };
     let modes = [UpMode::Answer, UpMode::Error, UpMode::Silent];
     for lb in [false, true] {
         for defer in [false, true] {
             for a in modes {
                 for b in modes {
                     for plan in [vec![0], vec![0, 0]] {
-                        v.push(ComboCfg { lb, plan, ups: vec![a, b], defer, max_burst: None, sequential: false, defer_rcode: false });
+                        v.push(base(lb, plan, vec![a, b], defer));
                     }
                 }
             }
             // three upstreams (the probe index is a real choice), requests one after the other
-            v.push(ComboCfg { lb, plan: vec![0, 1], ups: vec![UpMode::Silent, UpMode::Error, UpMode::Answer], defer, max_burst: None, sequential: true, defer_rcode: false });
+            v.push(ComboCfg { sequential: true, ..base(lb, vec![0, 1], vec![UpMode::Silent, UpMode::Error, UpMode::Answer], defer) });
         }
     }
     // upstreams answering REFUSED / SERVFAIL, with and without deferring such answers
     for lb in [false, true] {
         for defer_rcode in [false, true] {
             for ups in [vec![UpMode::Refused, UpMode::Answer], vec![UpMode::Answer, UpMode::ServFail], vec![UpMode::ServFail, UpMode::Refused], vec![UpMode::Refused, UpMode::Error]] {
-                v.push(ComboCfg { lb, plan: vec![0], ups, defer: defer_rcode, max_burst: None, sequential: false, defer_rcode });
+                v.push(ComboCfg { defer_rcode, ..base(lb, vec![0], ups, defer_rcode) });
             }
         }
     }
-    // load balancer whose only upstream has used up its burst
-    v.push(ComboCfg { lb: true, plan: vec![0, 0], ups: vec![UpMode::Answer], defer: false, max_burst: Some(0), sequential: true, defer_rcode: false });
+    v.extend(burst_cfgs());
+    v
+}
+
+/// The load balancer's per-upstream burst limits: max_burst {None, 0, 1, 2}
+/// per upstream x burst interval {one time step, the default second, an hour}
+/// x as many requests as every upstream's allowance plus two (so that the
+/// run passes through "no upstream limited", "some limited", "all limited",
+/// and the transport answers at least two requests itself), the questions
+/// alternating; with and without time passing in front of the first request
+/// beyond the allowance (exactly one interval, two intervals) or of the last
+/// request (more than the default interval); upstreams that fail or stay
+/// silent; requests submitted together; requests in the EDNS form.
+fn burst_cfgs() -> Vec<ComboCfg> {
+    let mut v = Vec::new();
+    let mk = |bursts: Vec<Option<u64>>, ups: Vec<UpMode>| {
+        // requests every limited upstream takes per interval, by the most
+        // generous reading (max_burst + 1), plus two
+        let allowance: u64 = bursts.iter().map(|b| b.map(|m| m + 1).unwrap_or(0)).sum();
+        let n = (allowance as usize + 2).min(8);
+        ComboCfg { lb: true, plan: (0..n).map(|i| i % 2).collect(), ups, defer: false, bursts, interval_ms: 0, pre_ticks: Vec::new(), sequential: true, defer_rcode: false, edns: false }
+    };
+    let ans = |n: usize| vec![UpMode::Answer; n];
+    let limits: Vec<Vec<Option<u64>>> = vec![
+        vec![Some(0)],
+        vec![Some(1)],
+        vec![Some(2)],
+        vec![Some(0), Some(0)],
+        vec![Some(1), Some(1)],
+        vec![Some(0), Some(1)],
+        vec![Some(2), Some(2)],
+        // one upstream without a limit: the transport never answers itself
+        vec![None, Some(0)],
+        vec![Some(1), None],
+    ];
+    let tick_ms = UP_TICK.as_millis() as u64;
+    for l in &limits {
+        let c = mk(l.clone(), ans(l.len()));
+        let n = c.plan.len();
+        let all_limited = l.iter().all(|b| b.is_some());
+        // the default interval, the requests back to back
+        v.push(c.clone());
+        // the first request beyond the allowance comes exactly one interval /
+        // two intervals after the burst
+        let beyond = n - 2;
+        for steps in [1u32, 2] {
+            v.push(ComboCfg { interval_ms: tick_ms, pre_ticks: vec![(beyond, steps)], ..c.clone() });
+        }
+        if all_limited {
+            // the last request comes when the default interval is over
+            v.push(ComboCfg { pre_ticks: vec![(n - 1, 3)], ..c.clone() });
+        }
+    }
+    let hour = 3_600_000;
+    // upstreams that fail / stay silent while they use up their allowance
+    for (ups, defer) in [
+        (vec![UpMode::Error, UpMode::Answer], false),
+        (vec![UpMode::Error, UpMode::Answer], true),
+        (vec![UpMode::Error, UpMode::Error], true),
+        (vec![UpMode::Silent, UpMode::Answer], false),
+        (vec![UpMode::Answer, UpMode::Silent], true),
+    ] {
+        v.push(ComboCfg { defer, interval_ms: hour, ..mk(vec![Some(1), Some(1)], ups) });
+    }
+    // all requests are submitted before any upstream answers
+    v.push(ComboCfg { sequential: false, ..mk(vec![Some(0)], ans(1)) });
+    v.push(ComboCfg { sequential: false, ..mk(vec![Some(1), Some(0)], ans(2)) });
+    // requests with EDNS data (the made-up reply has an OPT record to copy)
+    v.push(ComboCfg { edns: true, ..mk(vec![Some(0)], ans(1)) });
+    v.push(ComboCfg { edns: true, interval_ms: hour, ..mk(vec![Some(0), Some(1)], ans(2)) });
     v
 }
 
@@ -4858,7 +5057,7 @@ fn main() {
     if thorough {
         passes.push((false, 3, 1, 2, true, true, true));
     }
-    for (all_cuts, bound, min_callers, max_callers, others, full_shapes, stray_mode) in passes.into_iter() {
+    for (pass_no, (all_cuts, bound, min_callers, max_callers, others, full_shapes, stray_mode)) in passes.into_iter().enumerate() {
         g.all_cuts.store(all_cuts, Ordering::Relaxed);
         g.full_shapes.store(full_shapes, Ordering::Relaxed);
         g.stray_mode.store(stray_mode, Ordering::Relaxed);
@@ -4868,6 +5067,10 @@ fn main() {
                 let n = case.callers();
                 match case {
                     _ if only.as_ref().map(|o| !format!("{} {case:?}", case.tname()).contains(o.as_str())).unwrap_or(false) => false,
+                    // the burst-limit family of the load balancer (up to 8
+                    // requests, one after the other) runs in the first pass
+                    // and, up to 5 requests, in the thorough 3-deviation pass
+                    Case::Combo(c) if c.is_burst() => pass_no == 0 || (thorough && pass_no == 2 && n <= 5),
                     _ if n < min_callers || n > max_callers => false,
                     _ if stray_mode != case.in_stray_pass() && (stray_mode || case.stray_pass_only()) => false,
                     Case::Stream(_) => true,
